@@ -170,8 +170,14 @@ class NoName:
         return "anonattr"
 M = 2 ** 31
 ints = [-M - 1, -M, -M + 1, -1, 0, 1, M - 2, M - 1, M, 2 ** 32, -2 ** 32, 2 ** 63, -2 ** 63, 10 ** 30, -10 ** 30]
+# magnitudes at which int -> float and int -> str conversions of the interpreter give up (2^1024, 4300 digits)
+ints += [2 ** 1023, 2 ** 1024, -2 ** 1024, 10 ** 400, 10 ** 4299, 10 ** 4300, -10 ** 4300, 10 ** 5000]
+class BadFormat:
+    def __format__(self, spec):
+        raise RuntimeError("cannot format")
+    __str__ = __repr__ = lambda self: (_ for _ in ()).throw(RuntimeError("cannot print"))
 ints += [rnd.randint(-2 ** 33, 2 ** 33) for _ in range(n_random)] + [rnd.randint(-M - 3, -M + 3) for _ in range(20)] + [rnd.randint(M - 3, M + 3) for _ in range(20)]
-weird = [None, True, False, 1.0, 0.5, float("nan"), float("inf"), "1", "", b"1", [1], (1,), {"a": 1}, object(), IntSub(5), IntSub(-1), IntSub(2 ** 31)]
+weird = [None, True, False, 1.0, 0.5, float("nan"), float("inf"), "1", "", b"1", [1], (1,), {"a": 1}, object(), IntSub(5), IntSub(-1), IntSub(2 ** 31), BadFormat()]
 def kind(v):
     if v is None: return "none"
     if isinstance(v, bool): return "bool"
